@@ -1,5 +1,6 @@
 """C04 - encoding then decoding any valid value returns the same value."""
 import copy
+import datetime
 import json
 
 from .. import core, pyrt, pygen, values, ref_json, model as M
@@ -67,6 +68,25 @@ def perturb(idx, t, v):
     return None
 
 
+def map_datetimes(v, fn):
+    """Copy of an abstract value with fn applied to every datetime; None when it has none."""
+    hit = [False]
+
+    def go(x):
+        if isinstance(x, datetime.datetime):
+            hit[0] = True
+            return fn(x)
+        if isinstance(x, tuple):
+            return tuple(go(y) for y in x)
+        if isinstance(x, list):
+            return [go(y) for y in x]
+        if isinstance(x, dict):
+            return {k: go(y) for k, y in x.items()}
+        return x
+    out = go(v)
+    return out if hit[0] else None
+
+
 def roundtrip(case, rec, prop):
     api = case['api']
     idx = M.Index(api)
@@ -109,6 +129,20 @@ def roundtrip(case, rec, prop):
                     if not ref_json.json_equal(json.loads(json.dumps(got)), exp):
                         viol('wire-format', '%s produced %s, the serializer spec prescribes %s' % (
                             how, json.dumps(got)[:400], json.dumps(exp)[:400]), wire_kind(exp, got))
+                # the same value with its timestamps given as timezone-aware UTC datetimes (which the
+                # Timestamp validator accepts) must produce the same strings
+                aware = map_datetimes(v, lambda d: d.replace(tzinfo=datetime.timezone.utc))
+                if aware is not None:
+                    rec.note('aware_utc_variant')
+                    try:
+                        got = ss.json_compat_obj_encode(validator, values.materialize(pkg, idx, t, aware))
+                        if not ref_json.json_equal(json.loads(json.dumps(got)), exp):
+                            viol('wire-format', 'with timezone-aware UTC timestamps json_compat_obj_encode produced %s, '
+                                 'the serializer spec prescribes %s' % (json.dumps(got)[:400], json.dumps(exp)[:400]),
+                                 'aware-utc' + wire_kind(exp, got))
+                    except Exception as e:
+                        viol('encode-raised', 'encoding a value with timezone-aware UTC timestamps raised %r' % (e,),
+                             'aware-utc|' + core.stone_frame_sig(e))
                 continue
             if not ref_json.json_equal(parsed, json.loads(json.dumps(enc_obj))):
                 viol('entry-points-differ', 'json_encode and json_compat_obj_encode disagree')
